@@ -334,6 +334,15 @@ impl World {
                     }
                     "done".to_owned()
                 }
+                // requests cut off inside the 4-byte SOCKS5-UDP header (RSV RSV FRAG ATYP): 1, 2, 3 and 4 bytes
+                "local-udp-short" => {
+                    let Ok(u) = UdpSocket::bind("127.0.0.1:0").await else { return "no-loopback".to_owned() };
+                    for d in [&[0u8][..], &[0, 0], &[0, 0, 0], &[0, 0, 0, 1]] {
+                        let _ = u.send_to(d, ("127.0.0.1", cp)).await;
+                        tokio::time::sleep(Duration::from_millis(15)).await;
+                    }
+                    "done".to_owned()
+                }
                 "local-udp-junk" => {
                     let Ok(u) = UdpSocket::bind("127.0.0.1:0").await else { return "no-loopback".to_owned() };
                     let _ = u.send_to(&junk, ("127.0.0.1", cp)).await;
